@@ -302,10 +302,13 @@ def envelope_s(
     authw = {"SuitDigest": draw(st.one_of(digest_alg_only_s, digest_s))}
     for i in range(draw(st.integers(0, max_auth))):
         authw[f"SuitAuthentication{i}"] = draw(auth_s(risky, cwt))
-    pl = draw(st.dictionaries(names.map(lambda n: "#" + n), hexs(60), max_size=3)) if payloads else {}
+    # names come from a small pool as well, so that the same name recurs at different nesting levels and among siblings
+    pl_names = st.one_of(st.sampled_from(["#file", "#app", "#radio", "#p"]), names.map(lambda n: "#" + n))
+    dep_names = st.one_of(st.sampled_from(["#dep", "#app", "#radio", "#top.suit"]), names.map(lambda n: "#d" + n))
+    pl = draw(st.dictionaries(pl_names, hexs(60), max_size=3)) if payloads else {}
     deps = {}
     if depth > 0:
-        for n in draw(st.lists(names.map(lambda n: "#d" + n), unique=True, max_size=2)):
+        for n in draw(st.lists(dep_names, unique=True, max_size=2)):
             if n not in pl:
                 deps[n] = draw(envelope_s(depth - 1, risky, cwt, max(1, sd - 1), 1, with_text, payloads, small=True))
     members = {"suit-authentication-wrapper": authw, "suit-manifest": man, **{k: draw(v) for k, v in env_members.items()}}
